@@ -38,6 +38,13 @@ def run(run, args):
     for r in brecs:
         zid = len(zitems); src[zid] = ("coarse", r)
         zitems.append("mkZC %d%%N (%d)%%Z %s %s %s" % (zid, r["charge"], coq_f(r["carrier"]), pk(r["out"]), pk(r["neutral"])))
+    for r in brecs:
+        g2 = r.get("gen2")
+        if g2:
+            zid = len(zitems); src[zid] = ("coarse, through one long-lived generator object (first of two consecutive calls that differ only in the carrier)", r)
+            zitems.append("mkZC %d%%N (%d)%%Z %s %s %s" % (zid, r["charge"], coq_f(r["carrier"]), pk(g2["first"]), pk(g2["neutral"])))
+            zid = len(zitems); src[zid] = ("coarse, through one long-lived generator object (second of two consecutive calls that differ only in the carrier: carrier2)", r)
+            zitems.append("mkZC %d%%N (%d)%%Z %s %s %s" % (zid, r["charge"], coq_f(g2["carrier2"]), pk(g2["second"]), pk(g2["neutral"])))
     for r in crecs:
         zid = len(zitems); src[zid] = ("convolution", r)
         zitems.append("mkZC %d%%N (%d)%%Z %s %s %s" % (zid, r["charge"], coq_f(r["carrier"]), pk(r["out"]), pk(r["neutral"])))
